@@ -335,7 +335,9 @@ def permSwap0L := permOf axSwap0L
 
 structure FmmIn where
   kind : String            -- div | t1 | t2 | mt
-  rank : Nat
+  rank : Nat               -- rank of both operands when they agree
+  xRank : Nat := rank      -- rank of the first operand (before its Transpose, if any)
+  yRank : Nat := rank      -- rank of the second operand
   inner : Option FAttrs    -- none: plain MatMul
   perm : Option (List Int)
   cstConst : Bool
@@ -376,7 +378,7 @@ def fmm (i : FmmIn) : String :=
      | some a => fmmOut { a with alpha := some ((a.alpha.getD 1.0) / i.cst) } false)
   | "mt" =>
     -- (Fused)MatMulTranspose: both operands rank 2, perm absent or (1,0)
-    let ok := i.rank == 2 && (match i.perm with | none => true | some p => p.isEmpty || p == [1, 0])
+    let ok := i.xRank == 2 && i.yRank == 2 && (match i.perm with | none => true | some p => p.isEmpty || p == [1, 0])
     if !ok then "count=0" else
     let a := i.inner.getD FAttrs.empty
     let (ta, tb) := mtFlags i.fix3 (a.transA.getD 0) (a.transB.getD 0)
@@ -387,10 +389,12 @@ def fmm (i : FmmIn) : String :=
     let a := i.inner.getD FAttrs.empty
     let tb := ((if pos1 then a.transBatchA else a.transBatchB).getD 0)
     -- rules 5–8: Transpose(Fused)MatMul1/2
+    -- a Transpose without `perm` reverses ALL axes: only for a rank-2 *transposed operand* is that transA/transB
+    let opRank := if pos1 then i.xRank else i.yRank
     let basicOk :=
       (match i.perm with
-       | some p => if p.isEmpty then i.rank == 2 else p == permSwap p.length
-       | none => i.rank == 2) && (i.inner.isNone || tb == 0)
+       | some p => if p.isEmpty then opRank == 2 else p == permSwap p.length
+       | none => opRank == 2) && (i.inner.isNone || tb == 0)
     if basicOk then
       fmmOut (if pos1 then { a with transA := flip a.transA } else { a with transB := flip a.transB }) false
     else if i.inner.isNone then "count=0"
@@ -773,6 +777,7 @@ structure MhabIn where
   km : Option Shape
   vm : Option Shape
   qbias : Option Shape     -- shape of the value added to the query projection (when `qb`)
+  qmul : Option Shape := none  -- inferred shape of `Mul(query, pre)` (it stays in front of MHA when `pre` is not constant)
   dt : Nat
   qb : Bool
   kb : Bool
@@ -808,7 +813,7 @@ def mhab (i : MhabIn) : String :=
       : Bool × Option Shape × String × Option Shape :=
     if on then (if i.biasFirst then (true, bias, biasN, mat) else (true, mat, matN, bias))
     else (false, mat, matN, none)
-  let (hq, qsh, qn, qbs) := if mulLeft then (false, i.qm, "@Mul", none) else pick i.qb i.qm i.qbias "qm" "qbias"
+  let (hq, qsh, qn, qbs) := if mulLeft then (false, i.qmul, "@Mul", none) else pick i.qb i.qm i.qbias "qm" "qbias"
   let dshape : Option Shape := match i.qm with
     | some l => l.getLast?.map (fun d => [d])
     | none => none
@@ -839,5 +844,52 @@ def mhab (i : MhabIn) : String :=
     let v0 := if i.vb then "@Add" else "vm"
     s!"{head} MultiHeadAttention@com.microsoft\{num_heads={i.heads}{sc}}({q0},{k0},{v0}{if i.mask then ",_,_,mask" else ""})->1"
   else head
+
+/-! ## Pipeline level: the attention stages of `_core.fuse_xformers` on one attention block -/
+
+structure PipeIn where
+  qm : Option Shape        -- the query projection (B,S,D)
+  heads : Nat
+  qProj : String           -- how the query fed to attention is built from it: none | scale | bias | scale_bias | bias_scale
+  kb : Bool                -- key / value projections carry a bias
+  vb : Bool
+  s : Float                -- the scale constant
+  sdpaScale : Option Float -- `scale` of the SDPA node (`none`: default 1/√Dh)
+  mask : Bool
+
+/-- The order `fuse_xformers` runs the attention stages in — `sdpa`, `mha1/mha2`, **`mha_scale` once, then
+`mha_bias`**, then `attention` — on a block whose query is the projection with a `Mul` and/or an `Add` on top
+(outermost last).  `mha_scale` only sees a `Mul` that feeds MHA directly; `mha_bias` then only an `Add`.  In
+particular for `q = (x·Wq)·s + b` the bias is folded and the `Mul` STAYS in front of MHA: folding it into `scale`
+afterwards would also scale the bias (MHA adds its packed bias before scaling the scores). -/
+def pipe (i : PipeIn) : String :=
+  let ops0 : List String := match i.qProj with
+    | "scale" => ["mul"]
+    | "bias" => ["add"]
+    | "scale_bias" => ["mul", "add"]
+    | "bias_scale" => ["add", "mul"]
+    | _ => []
+  let headSize : Nat := match dimAt i.qm 2 with
+    | some (.int d) => d / i.heads
+    | _ => 0
+  -- stage mha_scale
+  let (ops1, ms, scale) :=
+    if ops0.getLast? == some "mul" then
+      (ops0.dropLast, 1, some (i.s * (i.sdpaScale.getD (1.0 / Float.sqrt headSize.toFloat))))
+    else (ops0, 0, i.sdpaScale)
+  -- stage mha_bias
+  let (ops2, qb) := if ops1.getLast? == some "add" then (ops1.dropLast, true) else (ops1, false)
+  let mb := qb || i.kb || i.vb
+  let opsF := if mb then ops2 else ops1
+  let qn := match opsF.getLast? with
+    | some "mul" => "@Mul"
+    | some _ => "@Add"
+    | none => "qm"
+  let kn := if i.kb && !mb then "@Add" else "km"
+  let vn := if i.vb && !mb then "@Add" else "vm"
+  let sc := match scale with | some v => s!";scale={showF v}" | none => ""
+  let tail := (if mb then ",@Concat" else "") ++
+    (if i.mask then (if mb then ",_,mask" else ",_,_,mask") else "")
+  s!"count=1/1/{ms}/{if mb then 1 else 0}/0 MultiHeadAttention@com.microsoft\{num_heads={i.heads}{sc}}({qn},{kn},{vn}{tail})->1"
 
 end OV.C19
